@@ -366,7 +366,8 @@ C10_Live ==
         /\ (e.res.ok /\ e.arg \notin mem) => (e.arg \in Certs /\ CertKey[e.arg] \in UList \cap Keys)
         /\ (e.arg \in mem /\ ~locked) => (e.res.ok /\ mem' = mem)
         /\ (e.res.ok => mem' = mem \cup {e.arg}) /\ (~e.res.ok => mem' = mem)
-        /\ (~locked /\ ~dead /\ e.arg \in Certs /\ CertKey[e.arg] \in UList \cap Keys) => e.res.ok
+        \* (acceptance is only demanded for a currently valid certificate: refusing an expired one at the door is allowed)
+        /\ (~locked /\ ~dead /\ e.arg \in Certs /\ Valid(e.arg, now) /\ CertKey[e.arg] \in UList \cap Keys) => e.res.ok
         /\ under' = under
   /\ (e.op \in {"list", "signers"} /\ NF /\ e.res.ok /\ ~locked) =>
         LET v == IF ulocked' THEN {} ELSE under' IN
